@@ -258,10 +258,10 @@ def run_case(case):
         # the signature of  def f(a=<expr>, *, k=<expr>) -> None  as pages.format_signature renders it
         from pydoctor.test.test_astbuilder import fromText
         from pydoctor.templatewriter import pages
-        sysm = model.System()
-        sysm.options.docformat = 'plaintext'
         res = []
         for expr in arg[:2]:      # [the expression, the same expression with a harmless payload, ...]
+            sysm = model.System()
+            sysm.options.docformat = 'plaintext'
             mod = fromText('def f(a=%s, *, k=%s) -> None:\n    pass\n' % (expr, expr), modname='c10sig', system=sysm)
             sig = pages.format_signature(mod.contents['f'])
             res.append([0, sig] if isinstance(sig, str) else [1, canon_stan(sig)])
